@@ -198,3 +198,62 @@ func VerifGroupPeriodic(runs int) {
 	vAssert(l.afterStop == 0, "stopandwait/nothing-starts-afterwards")
 	vCover("group-periodic")
 }
+
+// VerifGroupPeriodicOrTrigger: PeriodicOrTrigger under the discrete-event reading of the time model
+// (@prompt=1: computation takes no time, the clock moves only when everybody is blocked). f takes
+// a symbolic time to run; the trigger function is called once, a symbolic time after the start
+// (so: while f is idle, while a timer-started run is in progress, or in the same instant as a tick).
+// Asserted: the trigger call is followed by a run that begins at once - at the call if f was idle,
+// at the end of the run in progress otherwise - and periodic invocation goes on afterwards (the
+// harness waits for two more runs: it deadlocks if the timer was not re-armed).
+// args: runs to wait for after the trigger call
+//verif:case C17 quick VerifGroupPeriodicOrTrigger 2 @prompt=1 @fires=8 @noreplay=1 @arith=1
+//verif:case C17 thorough VerifGroupPeriodicOrTrigger 3 @prompt=1 @fires=12 @noreplay=1 @arith=1
+func VerifGroupPeriodicOrTrigger(after int) {
+	g := NewGroup(context.Background())
+	runDur := time.Duration(vNondetInt("runDur"))
+	vAssume(vAnd(runDur >= 0, runDur < 1<<30))
+	interval := time.Duration(vNondetInt("interval"))
+	vAssume(vAnd(interval > 0, interval < 1<<40))
+	pause := time.Duration(vNondetInt("pause"))
+	vAssume(vAnd(pause >= 0, pause < 1<<41))
+	var starts, ends []time.Time
+	total, running, overlap := 0, 0, false
+	trigger := g.PeriodicOrTrigger(interval, 0, func(ctx context.Context) {
+		s := time.Now()
+		vAtomic(func() {
+			starts = append(starts, s)
+			running++
+			if running > 1 {
+				overlap = true
+			}
+		})
+		time.Sleep(runDur)
+		e := time.Now()
+		vAtomic(func() {
+			ends = append(ends, e)
+			running--
+			total++
+		})
+	})
+	time.Sleep(pause)
+	T := time.Now()
+	need := 0
+	vAtomic(func() { need = total + running + after })
+	trigger()
+	vAwait(func() bool { return total >= need })
+	g.StopAndWait()
+	vAssert(!overlap, "periodicortrigger/runs-never-overlap")
+	// the end of the run that was in progress at T (T itself if f was idle)
+	busy := T
+	for i := range ends {
+		inProgress := vAnd(!starts[i].After(T), T.Before(ends[i]))
+		busy = vIte(inProgress, ends[i], busy)
+	}
+	ok := false
+	for j := range starts {
+		ok = vOr(ok, vAnd(!starts[j].Before(T), !starts[j].After(busy)))
+	}
+	vAssert(ok, "periodicortrigger/a-trigger-call-is-followed-at-once-by-a-run")
+	vCover("group-periodic-or-trigger")
+}
